@@ -603,3 +603,14 @@ Definition complete_model (tbl : pvtable) (c : cmd) (args : list bytes) (arg_ind
   | BFuel => CFuel
   | BOk b => complete_built tbl b args arg_index
   end.
+
+(** The panic sites the model makes visible, per Rust function:
+    (name, number of [unreachable!]-like macros, number of [expect]/[unwrap] calls).
+    [complete]: [SPanic 69] and [SPanic 84]; [possible_values]: [CPanic 535]; [parse_shortflags]:
+    [SFPanic] (603); [parse_opt_value]: [None] (673).  Compared with the table read off the source
+    (Gen/EngineSites.v) in EngineProofs.sites_match. *)
+Definition model_panic_sites : list (bytes * N * N) :=
+  [ ([99; 111; 109; 112; 108; 101; 116; 101], 1, 1);
+    ([112; 111; 115; 115; 105; 98; 108; 101; 95; 118; 97; 108; 117; 101; 115], 0, 1);
+    ([112; 97; 114; 115; 101; 95; 115; 104; 111; 114; 116; 102; 108; 97; 103; 115], 0, 1);
+    ([112; 97; 114; 115; 101; 95; 111; 112; 116; 95; 118; 97; 108; 117; 101], 0, 1) ].
